@@ -18,7 +18,7 @@ PROP = 'C06'
 LEVEL = 'exploration'
 RULE = ('family circuits x all {0,1,R,F} stimuli x delay plans (zero delay on fork inputs) x capacities x configuration lattice: {c_reuse} x {strip_forks} x {WaveSim, WaveSimCuda under the '
         'repository\'s own mock launcher} x allocated lanes {n, n+1, n+7, 2n} x lane permutations (reversal, rotations, adjacent swap) x c_prop(sims=k) for k in 1..n (quick: 6 values) x '
-        'delay dataset selection (mode 0 with every seed, mode 1 with per-lane datasets) x a_ctrl; state transfer s_ppo_to_ppi (CPU method vs GPU kernel) after a settled or a mid-activity capture, compared through the following cycle; LogicSim: {c_reuse} x {strip_forks} x m in {2,4,8} on all stimuli, also on bench-parsed netlists whose output ports are read inside the circuit; '
+        'delay dataset selection (mode 0 with every seed, mode 1 with per-lane datasets) x a_ctrl; state transfer s_ppo_to_ppi (CPU method vs GPU kernel) after a settled or a mid-activity capture, compared through the following cycle; bench-parsed netlists whose output ports are read inside the circuit: two cycles with s_ppo_to_ppi in between, WaveSim vs WaveSimCuda x {plain, c_reuse+strip_forks}; LogicSim: {c_reuse} x {strip_forks} x m in {2,4,8} on all stimuli, also on bench-parsed netlists whose output ports are read inside the circuit; '
         'oracle: bit-identical port results (and full signal memory where both runs keep it); distinct_nontrivial = distinct (case, configuration, result) signatures')
 ASSUMPTIONS = ['strip_forks comparisons use zero delay on lines feeding forks and uniform capacities (the statement\'s parenthesis)',
                'delay selection mode 2 (pseudo-random per-op choice) is outside the statement and not compared',
@@ -28,12 +28,23 @@ ASSUMPTIONS = ['strip_forks comparisons use zero delay on lines feeding forks an
 def tasks(tier, seed):
     t = W.w2_tasks(tier, seed)
     for sl in range(8): t.append(('logic', sl, 8, tier, seed))
+    for sl in range(4): t.append(('cutwave', sl, 4, tier, seed))
     return t
 
 
 def run_task(task):
     res = common.Result()
     tier, seed = task[-2], task[-1]
+    if task[0] == 'cutwave':
+        from checks.c07 import bench_cut_family
+        for idx, text in enumerate(F.take_slice(bench_cut_family(), task[2], task[1])):
+            if tier == 'quick' and idx % 8 != seed % 8: continue
+            case = {'kind': 'cutwave', 'nl': text, 'caps': (16, 4)[idx % 2], 'T': (None, 2.0, 1.25)[idx % 3]}
+            try: cutwave_case(res, case)
+            except Exception as ex:
+                res.violation(f'C06/cutwave/{common.h64(case["nl"]):016x}/exception-{type(ex).__name__}', case, traceback.format_exc()[-1500:])
+        if not res.samples: res.samples.append({'kind': 'cutwave'})
+        return res
     if task[0] == 'logic':
         gens = itertools.chain(F.t5(), F.t4(), W.t2_wave())
         for idx, nl in enumerate(F.take_slice(gens, task[2], task[1])):
@@ -76,6 +87,7 @@ def replay(case):
     res = common.Result()
     try:
         if case['kind'] == 'logic': logic_case(res, case)
+        elif case['kind'] == 'cutwave': cutwave_case(res, case)
         else: wave_case(res, case)
     except Exception as ex:
         res.violation(f'C06/{case["kind"]}/{common.h64(case["nl"]):016x}/exception-{type(ex).__name__}', case, traceback.format_exc()[-1500:])
@@ -135,6 +147,42 @@ def logic_case(res, case):
     except Exception as ex:
         res.violation(f'C06/logic/{common.h64(case["nl"]):016x}/s{case["style"]}/m{m}/two-objects-exception', case, traceback.format_exc()[-900:])
     res.count('logic_cases')
+
+
+def cutwave_case(res, case):
+    """bench netlists whose output ports are read inside the circuit, two clock cycles with the simulators' own state transfer in
+    between: WaveSim vs WaveSimCuda, and plain vs {c_reuse, strip_forks}.  No reference: the configurations are compared."""
+    from kyupy import bench
+    c = bench.parse(case['nl'])
+    src = [i for i, x in enumerate(c.s_nodes) if len(x.outs) > 0]
+    obs = [i for i, x in enumerate(c.s_nodes) if len(x.ins) > 0]
+    n, init, tt, fin = W.stim_for(len(src))
+    nlines = len(c.lines)
+    delays = wsim.delay_array(nlines, W.zero_fork_delays(c, ['d' if i % 2 else 'u' for i in range(nlines)]))
+    key = f'C06/cutwave/{common.h64(case["nl"]):016x}/cap{case["caps"]}/T{case["T"]}'
+    runs = {}
+    for cuda, reuse, strip in ((False, False, False), (True, False, False), (False, True, True), (True, True, True)):
+        res.evals += 1
+        sim = W.make_sim(c, delays, n, caps=case['caps'], reuse=reuse, strip=strip, cuda=cuda)
+        W.assign(sim, src, init, tt, fin)
+        sim.s_to_c(); sim.c_prop()
+        if case['T'] is None: sim.c_to_s()
+        else: sim.c_to_s(time=case['T'])
+        first = np.array(np.asarray(sim.s)[:, obs][:, :, :n], copy=True)
+        sim.s_ppo_to_ppi()
+        stim = np.array(np.asarray(sim.s)[0:3][:, :, :n], copy=True)
+        sim.s_to_c(); sim.c_prop(); sim.c_to_s()
+        second = np.array(np.asarray(sim.s)[:, obs][:, :, :n], copy=True)
+        runs[(cuda, reuse, strip)] = (first[3:], stim, second[3:])
+    ref_run = runs[(False, False, False)]
+    for cfg, r in runs.items():
+        if cfg == (False, False, False): continue
+        for nm, a, b_ in zip(('first-cycle', 'transferred-stimulus', 'second-cycle'), ref_run, r):
+            if not np.array_equal(a, b_):
+                res.violation(f'{key}/g{int(cfg[0])}r{int(cfg[1])}f{int(cfg[2])}/{nm}', case, f'{nm}: WaveSim{"Cuda" if cfg[0] else ""}(c_reuse={cfg[1]}, strip_forks={cfg[2]}) differs from the plain CPU simulator {case["nl"]}')
+                break
+    res.sig(('cutwave', case['nl'], case['caps'], case['T'], ref_run[2].tobytes()))
+    res.count('cutwave_cases')
 
 
 def wave_case(res, case):
@@ -365,7 +413,7 @@ def wave_case(res, case):
 
 
 def finish(agg, tier):
-    need = ['cfg_opt', 'cfg_alloc', 'cfg_perm', 'cfg_sims', 'cfg_dataset', 'cfg_dataset_mixed', 'cfg_twoobjects', 'cfg_twoprop', 'cfg_decimal_delays', 'logic_two_objects', 'cfg_abuf', 'cfg_reuse', 'logic_cases', 'logic_bench_cut_ports', 'cfg_state_transfer_midcapture']
+    need = ['cfg_opt', 'cfg_alloc', 'cfg_perm', 'cfg_sims', 'cfg_dataset', 'cfg_dataset_mixed', 'cfg_twoobjects', 'cfg_twoprop', 'cfg_decimal_delays', 'logic_two_objects', 'cfg_abuf', 'cfg_reuse', 'logic_cases', 'logic_bench_cut_ports', 'cfg_state_transfer_midcapture', 'cutwave_cases']
     missing = [k for k in need if not agg.counters.get(k)]
     if missing: raise common.HarnessError(f'vacuity guard: {missing} zero')
     return {}
